@@ -28,7 +28,7 @@ add("C07", T_HIST + "model oracle on every read entry point's contexts + arithme
     E + "Every read entry point of top-level Orswot, Map (x2) and MVReg probed after every step; add/rm clocks vs model, derived dots fresh.",
     "Top-level replicas only; Map key witnesses after merges inherit MAP-T1 (exempted per key).", "DESIGN.md 3/C07")
 add("C08", T_HIST + "differential oracle (non-causal vs causal delivery of the same op set) + reference model on intermediate reads",
-    E + "Per-actor (FIFO) delivery for Orswot/Map, no ordering for MVReg and order-free types, newest-first bias so removes overtake; settle phase; merges of replicas holding pending removes.",
+    E + "Per-actor (FIFO) delivery for Orswot/Map, no ordering for MVReg and order-free types, newest-first bias so removes overtake; settle phase; merges of replicas holding pending removes; structured remove-storm generator (up to 26 removes pending at once); plain regression job for the repaired defect MAP-T3b.",
     "Exemptions per key: MAP-T3, MAP-T6, MAP-T2/T2b/T5 (extras only), MAP-T1. Orswot and MVReg strict.", "DESIGN.md 3/C08")
 add("C09", T_HIST + "metamorphic oracle: state (reads and ==) unchanged by an already-known op or a subsumed state; model clause for non-resurrection",
     E + "Histories rich in re-deliveries and stale-snapshot merges; reads, contexts and == of the receiver must not change.",
@@ -40,7 +40,7 @@ add("C11", T_HIST + "reference model: arithmetic over the knowledge set (sum of 
     E + "Any delivery order, duplicates, merges, stale merges; value and internal state tree compared after every step; dedicated colliding-marker job for LWWReg's conflict flag.",
     "Counter totals stay far below u64::MAX; LWWReg markers unique.", "DESIGN.md 3/C11")
 add("C12", T_HIST + "invariant over the whole history: a single global total order exists (antisymmetric + acyclic 'before' relation across replicas and steps), membership model",
-    E + "Delayed causal delivery with 3+ actors inserting into the same gap, duplicates; settle phase.",
+    E + "Delayed causal delivery with 3+ actors inserting into the same gap, duplicates; settle phase; per-replica identifier-order invariant; structured nested-duel generator reaching identifier depth >= 7.",
     "Causal delivery (List's documented contract).", "DESIGN.md 3/C12")
 add("C13", T_HIST + "reference model: Vec model of index semantics, exhaustively over every index of each generated state",
     E + "Every index (and beyond) of reachable states with concurrently inserted siblings, for List and GList (insert, insert_after, insert_before).",
